@@ -2,6 +2,7 @@
 import copy
 import itertools
 
+import plumpy
 from plumpy.ports import UNSPECIFIED, InputPort, OutputPort, PortNamespace
 from plumpy.process_spec import ProcessSpec
 
@@ -21,7 +22,7 @@ RULE = ('source port trees to depth 3 over names {a, ab, abc, b, x} (so names ar
         'selects a strict subset')
 RULE += ('; also: empty namespaces, a reused options dictionary, targets below existing namespaces, a second narrower exposure of the same class, a destination port under the name of an excluded source port')
 ASSUMPTIONS = ['an empty include list is treated by the code as "no filter" and is outside the quantifier', 'reference model written from the property statement']
-REQUIRED = ['target_had_properties_of_its_own', 'other_separator', 'deep_targets', 'path_lookups', 'deep_path_lookups', 'exposes', 'include_cases', 'exclude_cases', 'prefix_sibling_cases', 'nested_rule_cases', 'attr_checks', 'mutation_probes', 'both_rejected',
+REQUIRED = ['only_destination_has_own_namespace_class', 'target_had_properties_of_its_own', 'other_separator', 'deep_targets', 'path_lookups', 'deep_path_lookups', 'exposes', 'include_cases', 'exclude_cases', 'prefix_sibling_cases', 'nested_rule_cases', 'attr_checks', 'mutation_probes', 'both_rejected',
             'namespace_option_cases', 'preexisting_kept', 'options_reused', 're_exposures', 'own_port_under_excluded_name', 'renamed_source_ports']
 BOUNDS = {'quick': '40 trees x all single rules and pairs', 'thorough': '600 trees, rule sets up to 3'}
 NAMES = ['a', 'ab', 'abc', 'b', 'x']
@@ -47,6 +48,10 @@ def _rand_port_attrs(rng, kind):
         attrs['validator'] = 'v_pos'
     if kind == 'in' and rng.random() < 0.4:
         attrs['default'] = 3 if attrs.get('valid_type') != 'str' else 's'
+        if 'valid_type' not in attrs and 'validator' not in attrs and rng.random() < 0.5:
+            # a default that is a read-only mapping holding a list (e.g. the parsed inputs of something else): the exposed port gets a
+            # copy of it all the way down
+            attrs['default'] = '@FROZEN'
     return attrs
 
 
@@ -105,6 +110,8 @@ def _kw(attrs):
         kw['valid_type'] = TYPES[kw['valid_type']]
     if 'validator' in kw:
         kw['validator'] = VALIDATORS[kw['validator']]
+    if kw.get('default') == '@FROZEN':
+        kw['default'] = plumpy.utils.AttributesFrozendict({'tags': ['a'], 'sub': plumpy.utils.AttributesFrozendict({'n': [1]})})
     if kw.get('default') == '@UNSPEC':
         kw['default'] = UNSPECIFIED  # (the public "no default" marker is an option value like any other)
     return kw
@@ -117,6 +124,14 @@ class SlashNamespace(PortNamespace):
 
 class SlashSpec(ProcessSpec):
     PORT_NAMESPACE_TYPE = SlashNamespace
+
+
+class OwnNamespace(PortNamespace):
+    """An application's namespace class that changes nothing about paths (same separator as the stock class)."""
+
+
+class OwnNamespaceSpec(ProcessSpec):
+    PORT_NAMESPACE_TYPE = OwnNamespace
 
 
 class TaggedInputPort(InputPort):
@@ -141,7 +156,7 @@ def build(ns, tree, kind, renamed=False):
         if d[0] == 'port':
             ns[made] = (TaggedInputPort if kind == 'in' else TaggedOutputPort)(made, **_kw(d[1]))
         else:
-            sub = type(ns)(made, **_kw(d[1])) if isinstance(ns, SlashNamespace) else PortNamespace(made, **_kw(d[1]))
+            sub = type(ns)(made, **_kw(d[1])) if isinstance(ns, (SlashNamespace, OwnNamespace)) else PortNamespace(made, **_kw(d[1]))
             ns[made] = sub
             build(sub, d[2], kind, renamed)
         if made != name:
@@ -178,7 +193,7 @@ def gen_cases(tier, seed):
                                        {'required': False, 'help': 'o2', 'valid_type': 'str'}, {'default': '@UNSPEC'}, {'default': {'other': 2}, 'help': 'o3'}])
                 pre = rng.random() < 0.6
                 yield {'kind': kind, 'tree': tree, 'top': top_attrs, 'mode': mode, 'rules': rs, 'target': target, 'options': opts, 'pre': pre,
-                       'renamed': t % 3 == 1, 'slash': t % 4 == 3}
+                       'renamed': t % 3 == 1, 'slash': (True if t % 8 == 3 else 'dest') if t % 4 == 3 else False}
         # include together with exclude is rejected
         yield {'kind': kind, 'tree': tree, 'top': top_attrs, 'mode': 'both', 'rules': [allp[0]], 'target': None, 'options': {}, 'pre': False}
         # ... also when one of the two rule sets is given but empty (a computed rule set that came out empty)
@@ -224,11 +239,20 @@ def describe(ns):
     return out
 
 
+def _plain_value(v):
+    """A snapshot by value (a mapping as a dict, a list as a list): what is compared later must not follow in-place changes."""
+    if isinstance(v, (dict, plumpy.utils.Frozendict)):
+        return {k: _plain_value(x) for k, x in v.items()}
+    if isinstance(v, list):
+        return [_plain_value(x) for x in v]
+    return v
+
+
 def _port_attrs(port):
     a = {'required': port.required, 'valid_type': port.valid_type, 'help': port.help, 'validator': port.validator, 'name': port.name,
          'tags': list(getattr(port, 'tags', ()))}
     if isinstance(port, InputPort):
-        a['default'] = port.default if port.has_default() else UNSPECIFIED
+        a['default'] = _plain_value(port.default) if port.has_default() else UNSPECIFIED
         a['has_default'] = port.has_default()
     return a
 
@@ -277,20 +301,22 @@ def run_case(case):
     V = judges.V
     kind = case['kind']
     obs_pre_root = 0
-    slash = bool(case.get('slash'))
+    slash = case.get('slash') is True
     sep = '/' if slash else '.'
 
     def P(path):
         # (paths are written with '.' in the cases and in the model; the specs of a 'slash' case separate levels with '/')
         return path.replace('.', sep) if isinstance(path, str) else path
 
+    # ('dest': only the destination spec uses the application's namespace class, the exposed class is a stock one)
     src_spec = SlashSpec() if slash else ProcessSpec()
+    src_sep = sep
     src_root = src_spec.inputs if kind == 'in' else src_spec.outputs
     for k, v in _kw(case['top']).items():
         setattr(src_root, k, v)
     build(src_root, case['tree'], kind, renamed=bool(case.get('renamed')))
     src_cls = type('Src', (_Src,), {'_spec': src_spec})
-    dest = SlashSpec() if slash else ProcessSpec()
+    dest = SlashSpec() if slash else (OwnNamespaceSpec() if case.get('slash') == 'dest' else ProcessSpec())
     droot = dest.inputs if kind == 'in' else dest.outputs
     if case['pre']:
         (dest.input if kind == 'in' else dest.output)('pre_existing', help='mine')
@@ -315,7 +341,7 @@ def run_case(case):
     pre_desc = describe(droot)
     expose = dest.expose_inputs if kind == 'in' else dest.expose_outputs
     obs = {'exposes': 1, 'include_cases': 0, 'exclude_cases': 0, 'prefix_sibling_cases': 0, 'nested_rule_cases': 0, 'attr_checks': 0,
-           'renamed_source_ports': int(bool(case.get('renamed'))), 'target_had_properties_of_its_own': obs_pre_root, 'other_separator': int(slash), 'deep_targets': int(str(case.get('target') or '').count('.') >= 2), 'mutation_probes': 0, 'both_rejected': 0, 'namespace_option_cases': 0, 'preexisting_kept': 0, 'options_reused': 0}
+           'renamed_source_ports': int(bool(case.get('renamed'))), 'target_had_properties_of_its_own': obs_pre_root, 'other_separator': int(slash), 'only_destination_has_own_namespace_class': int(case.get('slash') == 'dest'), 'deep_targets': int(str(case.get('target') or '').count('.') >= 2), 'mutation_probes': 0, 'both_rejected': 0, 'namespace_option_cases': 0, 'preexisting_kept': 0, 'options_reused': 0}
     viol = []
     mode, rules = case['mode'], case['rules']
     shape = '%s:%s' % (mode, kind)
@@ -459,7 +485,7 @@ def run_case(case):
     for n, path in enumerate(sorted(p for p in (exp_names & real_names) if '.' in p)):
         order = (src_root, target_ns) if n % 2 == 0 else (target_ns, src_root)
         try:
-            found = {id(root): root.get_port(P(path), create_dynamically=False) for root in order}
+            found = {id(root): root.get_port(path.replace('.', src_sep if root is src_root else sep), create_dynamically=False) for root in order}
         except ValueError:
             continue
         stored = target_ns
@@ -506,6 +532,10 @@ def _mutate(ns, tag='src'):
         else:
             port.valid_type = float
             if isinstance(port, InputPort):
+                if port.has_default() and isinstance(port.default, plumpy.utils.Frozendict):
+                    # (changed in place, below the read-only mapping, before it is replaced)
+                    port.default['tags'].append(tag)
+                    port.default['sub']['n'].append(tag)
                 port.default = 'mutated-default'
     ns['zz_added_%s' % tag] = PortNamespace('zz_added_%s' % tag) if tag == 'src' else OutputPort('zz_added_%s' % tag)
     for name in list(ns):
